@@ -372,7 +372,7 @@ def check_rename(e, act, bundles=None, collect=False):
   prot = protected_target(b, act)
   snap = G.snapshot(e) if prot else None
   try:
-    G.apply(e, [act])
+    out_group = G.apply(e, [act])
   except Exception as ex:
     if prot:
       # a rename of a protected column (manualSort; group of a summary table) is rejected and leaves no trace:
@@ -391,6 +391,7 @@ def check_rename(e, act, bundles=None, collect=False):
     return 'rejected:%s' % type(ex).__name__, {}, []
   a = observe(e)
   info, problems = judge(b, a, act)
+  info['undo'] = G.reprs(out_group.undo)        # for histories that undo the rename
   if collect:
     info['schema'] = b['schema']
     info['formulas'] = []
@@ -590,6 +591,121 @@ def run_sisters(seed, nren):
       done.append([act])
 
 
+LAYOUT_FORMULAS = [
+  '${p} * ${q}', 'rec.{p} + ${q}', 'x = ${p}\nreturn x * ${q}', 'if ${p}:\n  return ${q}\nreturn ${t}',
+  '{T}.lookupOne({t}=${t}).{p} + ${q}', 'len({T}.lookupRecords({t}=${t}, order_by="-{q}"))',
+  'SUM(r.{q} for r in {T}.all if r.{t} == ${t})', '[r.{p}\n for r in {T}.all]', '${p} * ${q}  # {q} of {p}',
+  'RANK(rec, order_by=("{t}", "-{q}"))',
+]
+
+
+def layout_variant(rng, text, safe=False):
+  """The same formula laid out differently: the generated code is identical (gencode dedents the body and
+  normalises line endings), the STORED text -- which rename patches are positions in -- is not."""
+  # re-indenting every line and LF <-> CRLF leave the generated module text IDENTICAL; trailing blanks do not (kept rare)
+  k = rng.choice(['indent'] * 5 + ['crlf'] * 2 + ['dedent'] + ['mix'] * 3 + ([] if safe else ['trail']))
+  lines = text.replace('\r\n', '\n').split('\n')
+  if k in ('indent', 'mix'):
+    pad = ' ' * rng.choice([1, 2, 4, 7])
+    lines = [pad + l for l in lines]
+  if k == 'dedent':
+    n = min(len(l) - len(l.lstrip(' ')) for l in lines if l.strip()) if any(l.strip() for l in lines) else 0
+    lines = [l[n:] for l in lines]
+  if k == 'trail':
+    lines = [l + rng.choice(['', ' ', '  ']) for l in lines]
+  return ('\r\n' if k in ('crlf', 'mix') else '\n').join(lines)
+
+
+def run_layout(seed, nsteps, collect=False):
+  """A rename HISTORY on one engine: renames interleaved with undo of a rename and with layout-only edits of formulas
+  (re-indent all lines, CRLF, trailing blanks).  Oracle as for every rename: formulas change only in the renamed name
+  tokens, values are unchanged."""
+  rng = random.Random(seed)
+  T = rng.choice(['Orders', 'Tt', 'Items'])
+  p, q, t = rng.sample(['Price', 'Qty', 'tag', 'A', 'B', 'amount', 'kind'], 3)
+  n = dict(T=T, p=p, q=q, t=t)
+  col = lambda i, ty: {'id': i, 'type': ty, 'isFormula': False}
+  done = [[['AddTable', T, [col(p, 'Int'), col(q, 'Int'), col(t, 'Text')]]],
+          [['BulkAddRecord', T, [None] * 4, {p: [1, 2, 3, 0], q: [5, 6, 7, 8], t: ['a', 'b', 'a', '']}]]]
+  for i, f in enumerate(rng.sample(LAYOUT_FORMULAS, rng.randint(2, 5))):
+    done.append([['AddColumn', T, 'f%d' % i, {'type': 'Any', 'isFormula': True, 'formula': f.format(**n)}]])
+  # a column z that exactly ONE formula (g) mentions: rename + undo of z then restores the generated module text
+  # exactly (an undo moves the renamed column and the rewritten formulas to the end, in reverse order)
+  z = rng.choice(['Zq', 'weight', 'n_1'])
+  done.append([['AddColumn', T, z, {'type': 'Int', 'isFormula': False}]])
+  done.append([['AddColumn', T, 'g', {'type': 'Any', 'isFormula': True, 'formula': rng.choice(
+    ['$%s + 1', 'rec.%s * 2', 'x = $%s\nreturn x + 1', 'if $%s:\n  return 1\nreturn 0', '[$%s,\n 1]']) % z}]])
+  e, _ = G.new_doc()
+  for bundle in done:
+    try_apply(e, None, bundle)
+  fresh = ['Count', 'paid', 'Zz', 'X9', 'Label 2', 'w_1', 'Total2', 'n2', 'Cost', 'Units']
+  undo, k = None, 0
+  first_layout, prefer = True, []        # the first layout step keeps the module text; the next rename hits what it edited
+  script = ['rename z', 'undo', 'rename z', 'undo', 'layout g', 'rename z'] + \
+           [rng.choice(['rename', 'undo', 'layout', 'layout', 'rename', 'rename z', 'layout g']) for _ in range(nsteps)]
+  zref = gref = None
+  for step in script:
+    m = histgen.Meta(e)
+    tb = next((x for x in m.user_tables()), None)
+    if zref is None and tb is not None:
+      zref = next((c['id'] for c in m.by_table[tb['id']] if c['colId'] == z), None)
+      gref = next((c['id'] for c in m.by_table[tb['id']] if c['colId'] == 'g'), None)
+    target = None
+    if step.endswith(' z') or step.endswith(' g'):
+      target = m.cols.get(zref if step.endswith(' z') else gref)
+      step = step.split()[0]
+      if target is None:
+        continue
+    if tb is None:
+      break
+    if step == 'undo':
+      if undo is not None:
+        b = [['ApplyUndoActions', undo]]
+        done.append(copy.deepcopy(b))
+        try_apply(e, None, b)
+        undo = None
+      continue
+    if step == 'layout':
+      fc = [c for c in m.formula_cols(tb['id']) if c['formula']]
+      for c in ([target] if target is not None else rng.sample(fc, min(len(fc), rng.randint(1, 3)))):
+        b = [['ModifyColumn', tb['tableId'], c['colId'], {'formula': layout_variant(rng, c['formula'], first_layout)}]]
+        prefer += [x for x in m.data_cols(tb['id']) if mentions(x['colId'], [c['formula']])]
+        before = G.snapshot(e, tables=[tb['tableId']])
+        done.append(copy.deepcopy(b))
+        if try_apply(e, None, b) and G.snapshot(e, tables=[tb['tableId']]) != before:
+          return      # the edit was not layout-only for the engine (not this property's business): stop this history
+      first_layout = False
+      continue
+    dc = m.data_cols(tb['id'])
+    if not dc:
+      break
+    ids = set(x['id'] for x in dc)
+    pc = [x for x in prefer if x['id'] in ids]
+    c = rng.choice(pc) if pc and rng.random() < 0.8 else rng.choice(dc)
+    if target is not None:
+      c = target
+    prefer = []
+    new = fresh[k % len(fresh)] + ('' if k < len(fresh) else str(k))
+    k += 1
+    path = rng.choice(['RenameColumn', 'RenameColumn', 'label', 'colId', 'RenameTable'])
+    if target is not None and path == 'RenameTable':
+      path = 'RenameColumn'
+    if path == 'RenameColumn':
+      act = ['RenameColumn', tb['tableId'], c['colId'], new]
+    elif path == 'label':
+      act = ['UpdateRecord', '_grist_Tables_column', c['id'], {'label': new}]
+    elif path == 'colId':
+      act = ['UpdateRecord', '_grist_Tables_column', c['id'], {'colId': new}]
+    else:
+      act = ['RenameTable', tb['tableId'], rng.choice(['Sales', 'Xt', 'Yy', 'Deals']) + str(k)]
+    status, info, problems = check_rename(e, act, list(done), collect)
+    yield list(done), path, act, status, info, problems, None
+    done.append([act])
+    undo = info.get('undo') if status == 'applied' else None
+    if problems:
+      return
+
+
 def replay(ctx, w):
   """Re-runs a recorded scenario: the bundles (failures ignored, document cleaned), then the rename."""
   e, _ = G.new_doc()
@@ -696,7 +812,7 @@ def run_streams(ctx):
   plan = [('main', 'random', ctx.n(18, 320)), ('main', 'directed', ctx.n(1, 12)),
           ('clash', 'directed', ctx.n(1, 6)), ('gaps', 'directed', ctx.n(1, 6)),
           ('clash', 'random', ctx.n(1, 30)), ('gaps', 'random', ctx.n(1, 30)),
-          ('sisters', 'sisters', ctx.n(3, 40))]
+          ('sisters', 'sisters', ctx.n(3, 40)), ('layout', 'layout', ctx.n(8, 150))]
   out = []
   # the witnesses of the FIXED findings stay in the corpus and run first: the rename must now be rejected without trace
   for k in core.load_known():
@@ -720,6 +836,8 @@ def run_streams(ctx):
         it = run_history(seed, stream, 8, 5, collect=collect)
       elif mode == 'sisters':
         it = run_sisters(seed, ctx.n(3, 6))
+      elif mode == 'layout':
+        it = run_layout(seed, ctx.n(4, 10), collect=collect)
       else:
         it = run_directed(seed, stream, ctx.n(4, 12), collect=collect)
       for done, path, act, status, info, problems, gen in it:
